@@ -119,7 +119,7 @@ class MosFile:
             'roElementAction': ElementAction,
         }
         for tag, subcls in tag_class_map.items():
-            if xml.find(tag):
+            if xml.find(tag) is not None:
                 if subcls == ElementAction:
                     return ElementAction._classify(xml)
                 return subcls(xml)
@@ -1291,7 +1291,9 @@ class ElementAction(MosFile):
         Classify the MOS type and return an instance of the relevant class
         """
         ea = xml.find('roElementAction')
-        operation = ea.attrib['operation']
+        if ea is None:
+            raise UnknownMosFileType("Unable to determine MOS file type")
+        operation = ea.get('operation')
 
         # are there any itemID tags in element_target?
         try:
@@ -1300,7 +1302,10 @@ class ElementAction(MosFile):
             target_item = False
 
         # are there any itemID tags in element_source?
-        source_item = len(ea.find('element_source').findall('itemID')) > 0
+        try:
+            source_item = len(ea.find('element_source').findall('itemID')) > 0
+        except AttributeError:
+            raise UnknownMosFileType("Unable to determine roElementAction type - no element_source") from None
 
         # use the combination of operation, target_item and source_item to
         # determine the subclass
@@ -1316,7 +1321,9 @@ class ElementAction(MosFile):
             ('SWAP', False, True): EAItemSwap,
             ('MOVE', False, False): EAStoryMove,
             ('MOVE', True, True): EAItemMove,
-        }[(operation, target_item, source_item)]
+        }.get((operation, target_item, source_item))
+        if subcls is None:
+            raise UnknownMosFileType("Unable to determine roElementAction type")
         return subcls(xml)
 
     @property
